@@ -24,11 +24,15 @@
               - error wrapping: when the last thing a run logged is the failing return of a native called from
                 the top-level run, the run's error is the task failure carrying that native's name, then the name
                 of its last nested native call if that one failed too, and so on (wrapping_ok),
-              - names starting with "__" are rejected by register_native_function, other names are accepted,
+              - names starting with "__" are rejected by register_native_function, other names are accepted; after a
+                fixed history of registrations (repeated names, reserved names, a menu name) CallNative(name) runs
+                the function of the last accepted registration of that name (reg_spec); the same answers compared
+                with the registry model VmRegistry.v are code 1 (reg_expected),
               - no run ends in a Rust panic (VmCheck.panic_code),
           3 / 4 / 5 as in VmCheck; 3 also for a malformed record. *)
 From Coq Require Import String Ascii.
 From Cao Require Export VmCheck.
+From Cao Require Import VmRegistry.
 Local Open Scope N_scope.
 
 Definition rb1_entry_ok (e : list tval) : bool :=
@@ -252,6 +256,44 @@ Definition wrapping_ok (o : obs) : bool :=
       end
   end.
 
+(* ---- registration history (harness/src/vmrun.rs REG_OPS / REG_PROBES: the same constants) ----
+   VmReserved answers = 4 fixed answers (rejected "__mine", accepted "_x", rejected "__min", accepted "a__b"), then
+   for the history REG_OPS run on a new VM after the menu: accepted? per registration; then for every probe name,
+   for every id 1..11 whether the function registered with that id ran when the program CallNative(probe) was run,
+   and whether the run ended with ProcedureNotFound. *)
+Definition reg_names : list (string * N) :=
+  [("__mine", 1); ("_x", 2); ("__min", 3); ("a__b", 4); ("f", 5); ("f", 6); ("_x", 7); ("__to_array", 8);
+   ("log1", 9); ("_", 10); ("__", 11)]%string.
+Definition reg_probe_names : list string := ["f"; "_x"; "a__b"; "log1"; "__mine"; "g"; "_"; "__"]%string.
+Definition reg_ids : list N := [1; 2; 3; 4; 5; 6; 7; 8; 9; 10; 11].
+
+Definition reg_ops : list (list N * hostfn) := map (fun x => (bytes_of (fst x), UserFn (snd x))) reg_names.
+
+(* model: VmRegistry.run_public on the registry of a new VM with the menu *)
+Definition reg_expected : list bool :=
+  let '(r, answers) := run_public menu_registry reg_ops in
+  map (fun a => match a with RegOk => true | RegRejected => false end) answers ++
+  flat_map (fun p =>
+              let got := reg_get r (handle_of_bytes (bytes_of p)) in
+              map (fun k => match got with Some (mkProc _ (UserFn id)) => N.eqb id k | _ => false end) reg_ids ++
+              [match got with None => true | Some _ => false end]) reg_probe_names.
+
+(* specification, by NAME (independent of the registry model and of the hash): a registration is accepted iff the
+   name does not start with "__"; CallNative(name) runs the function of the last accepted registration of that
+   name, a menu native if the name was never (acceptably) registered and is in the menu, otherwise
+   ProcedureNotFound *)
+Definition reserved_string (s : string) : bool :=
+  match s with String "_" (String "_" _) => true | _ => false end.
+Definition reg_spec : list bool :=
+  map (fun x => negb (reserved_string (fst x))) reg_names ++
+  flat_map (fun p =>
+              let winner := find (fun x => String.eqb (fst x) p && negb (reserved_string (fst x))) (rev reg_names) in
+              map (fun k => match winner with Some (_, id) => N.eqb id k | None => false end) reg_ids ++
+              [match winner with
+               | Some _ => false
+               | None => negb (existsb (fun n => list_eqb N.eqb (native_name n) (bytes_of p)) all_natives)
+               end]) reg_probe_names.
+
 Definition strip_obs (o : obs) : obs :=
   mkObs (ob_out o) (ob_globals o) (filter (fun e => negb (is_record e)) (ob_log o)) (ob_shape o).
 Definition strip_case (c : vmcase) : vmcase :=
@@ -271,9 +313,18 @@ Definition oracle (c : vmcase) : list N :=
       | MFresh => flat_map (fun r => if wrapping_ok (snd r) then [] else [2]) runs
       | _ => []
       end
-  | VmReserved answers => if forallb (fun b => b) answers then [] else [2]
+  | VmReserved answers =>
+      (if forallb (fun b => b) (firstn 4 answers) then [] else [2]) ++
+      (if list_eqb Bool.eqb (skipn 4 answers) reg_spec then [] else [2])
   | VmOpTable _ => []
   end.
 
-Definition check1 (c : vmcase) : list N := VmCheck.check1 (strip_case c) ++ oracle c.
+(* code 1: the registry model (VmRegistry.v) on the fixed registration history *)
+Definition check_registry (c : vmcase) : list N :=
+  match c with
+  | VmReserved answers => if list_eqb Bool.eqb (skipn 4 answers) reg_expected then [] else [1]
+  | _ => []
+  end.
+
+Definition check1 (c : vmcase) : list N := VmCheck.check1 (strip_case c) ++ check_registry c ++ oracle c.
 Definition check_all := CheckUtil.check_all check1.
